@@ -11,6 +11,7 @@ R == Trace[l]
 ExpectedStatus(r) == IF r.sc.failUntil > r.sc.retries THEN "failed" ELSE "finished"
 ExpectedAttempts(r) == IF r.sc.failUntil > r.sc.retries THEN r.sc.retries + 1 ELSE r.sc.failUntil + 1
 Clauses(r) ==
+  IF r.crashed THEN {"C12_ProcessCrashedWhileLogging"} ELSE        \* the process running the step died while handling its output
   (IF r.hung THEN {"C12_StepNeverFinishes"} ELSE {})
   \cup (IF ~r.hung /\ ~r.log.equal THEN {"C12_LogIncomplete"} ELSE {})
   \cup (IF ~r.hung /\ ~r.stdoutFile.equal THEN {"C12_StdoutFileIncomplete"} ELSE {})
